@@ -486,7 +486,11 @@ namespace nmtools::array
                 ::nmtools::detail::apply_resize(output,inp_shape);
             }
 
-            (*this)(output);
+            // eval_* return false for operands the simd path does not handle (different rank,
+            // broadcast beyond 2-d, non-index axis): evaluate those with the default evaluator
+            if (!(*this)(output)) {
+                evaluator_t<view_t,none_t,resolver_t>{view,None}(output);
+            }
 
             return output;
         } // operator()
